@@ -1,8 +1,9 @@
 (* C03 - statements only (proofs: theories/Proofs/EncKVProofs.v).
    Foreign files with application metadata (FileMetaData.key_value_metadata, e.g. the 'pandas' entry another writer
    attaches): the specification encoder Format/EncKV.v writes them; what such a file ENCODES does not depend on the entries. *)
-From Coq Require Import NArith ZArith List.
-From Pq Require Import Base.Bytes Base.ListX Thrift.Compact Format.Meta Format.Enc Format.EncKV Proofs.EncKVProofs.
+From Coq Require Import String NArith ZArith List.
+From Pq Require Import Base.Bytes Base.ListX Thrift.Compact Format.Phys Format.Meta Format.Page Format.File Format.Enc Format.EncKV
+                       Thrift.Idl Thrift.IdlPinned Proofs.FormatIdlProofs Proofs.FormatFileProofs Proofs.EncKVProofs Proofs.EncKVFileProofs.
 Import ListNotations.
 
 (* the typed footer the specification decoder works from (Format/File.v parse_footer -> fmd_of_tv) is the same record
@@ -16,8 +17,7 @@ Proof. exact fmd_view_ignores_kv. Qed.
 Print Assumptions C03_kv_footer_view_same.
 
 (* the file with entries has the same data region (every page byte, every offset) as the file without: only the footer
-   bytes and the footer length differ.  NOT proved (checked per generated file by fmt_decode on the real bytes): the strict
-   thrift reader accepts the extended footer and the whole-file round trip dec_file (enc_file_kv kvs f) = table_of f. *)
+   bytes and the footer length differ.  The whole-file round trip is C03_kv_spec_roundtrip_dec below. *)
 Theorem C03_kv_file_shape_partial : forall compress kvs f,
   let foot := wr (fmd_to_tv_kv kvs (meta_of compress f)) in
   let foot0 := wr (fmd_to_tv (meta_of compress f)) in
@@ -26,3 +26,27 @@ Theorem C03_kv_file_shape_partial : forall compress kvs f,
   fmd_of_tv (fmd_to_tv_kv kvs (meta_of compress f)) = Some (meta_of compress f).
 Proof. exact enc_file_kv_shape. Qed.
 Print Assumptions C03_kv_file_shape_partial.
+
+(* WHOLE FILE: for every well-formed laid-out file and ANY key-value entries (footer representable: `lfile_wf_kv` = the layout's own
+   consistency + the extended footer within the compact protocol's widths, nesting <= 64, < 4 GiB) the specification decoder reads
+   enc_file_kv back to the table the layout denotes - the same table as without entries - and the validator accepts the file *)
+Theorem C03_kv_spec_roundtrip_dec :
+  forall (compress : Z -> bytes -> bytes) (decompress : Z -> N -> bytes -> option bytes),
+  (forall codec b, decompress codec (lenN b) (compress codec b) = Some b) ->
+  forall strict kvs f t, lfile_wf_kv compress kvs f -> lfile_wf compress f -> table_of f = Some t ->
+  dec_file decompress strict (enc_file_kv compress kvs f) = ROk t.
+Proof. exact spec_roundtrip_dec_kv. Qed.
+Print Assumptions C03_kv_spec_roundtrip_dec.
+
+Theorem C03_kv_valid_file :
+  forall (compress : Z -> bytes -> bytes) (decompress : Z -> N -> bytes -> option bytes),
+  (forall codec b, decompress codec (lenN b) (compress codec b) = Some b) ->
+  forall strict kvs f, lfile_wf_kv compress kvs f -> Forall rg_strict (l_rgs f) ->
+  valid_file decompress strict (enc_file_kv compress kvs f) = ROk tt.
+Proof. exact valid_file_roundtrip_kv. Qed.
+Print Assumptions C03_kv_valid_file.
+
+Theorem C03_kv_footer_conforms : forall kvs m, Forall logical_ok (fm_schema m) ->
+  Idl.conforms IdlPinned.pinned idl_opts (Idl.FStruct "FileMetaData") (fmd_to_tv_kv kvs m) = true.
+Proof. exact conf_fmd_kv. Qed.
+Print Assumptions C03_kv_footer_conforms.
